@@ -34,17 +34,31 @@ typedef enum {
 #define atomic_load_explicit(addr, order) (*(addr))
 #define atomic_store_explicit(addr, val, order) (*(addr) = (val))
 
-#define atomic_fetch_add(obj, val) (*(obj) += (val))
-#define atomic_fetch_sub(obj, val) (*(obj) -= (val))
-#define atomic_fetch_or(obj, val) (*(obj) |= (val))
-#define atomic_fetch_xor(obj, val) (*(obj) ^= (val))
-#define atomic_fetch_and(obj, val) (*(obj) &= (val))
+// atomic_fetch_* return the value the object held *before* the update.
+#define __atomic_fetch_op(obj, val, op)                              \
+  ({                                                                 \
+    typeof(obj) __fetch_p = (obj);                                   \
+    typeof(*__fetch_p) __fetch_val = (val);                          \
+    typeof(*__fetch_p) __fetch_old = *__fetch_p;                     \
+    typeof(*__fetch_p) __fetch_new;                                  \
+    do {                                                             \
+      __fetch_new = __fetch_old op __fetch_val;                      \
+    } while (!__builtin_compare_and_swap(__fetch_p, &__fetch_old,    \
+                                         __fetch_new));              \
+    __fetch_old;                                                     \
+  })
 
-#define atomic_fetch_add_explicit(obj, val, order) (*(obj) += (val))
-#define atomic_fetch_sub_explicit(obj, val, order) (*(obj) -= (val))
-#define atomic_fetch_or_explicit(obj, val, order) (*(obj) |= (val))
-#define atomic_fetch_xor_explicit(obj, val, order) (*(obj) ^= (val))
-#define atomic_fetch_and_explicit(obj, val, order) (*(obj) &= (val))
+#define atomic_fetch_add(obj, val) __atomic_fetch_op(obj, val, +)
+#define atomic_fetch_sub(obj, val) __atomic_fetch_op(obj, val, -)
+#define atomic_fetch_or(obj, val) __atomic_fetch_op(obj, val, |)
+#define atomic_fetch_xor(obj, val) __atomic_fetch_op(obj, val, ^)
+#define atomic_fetch_and(obj, val) __atomic_fetch_op(obj, val, &)
+
+#define atomic_fetch_add_explicit(obj, val, order) __atomic_fetch_op(obj, val, +)
+#define atomic_fetch_sub_explicit(obj, val, order) __atomic_fetch_op(obj, val, -)
+#define atomic_fetch_or_explicit(obj, val, order) __atomic_fetch_op(obj, val, |)
+#define atomic_fetch_xor_explicit(obj, val, order) __atomic_fetch_op(obj, val, ^)
+#define atomic_fetch_and_explicit(obj, val, order) __atomic_fetch_op(obj, val, &)
 
 #define atomic_compare_exchange_weak(p, old, new) \
   __builtin_compare_and_swap((p), (old), (new))
